@@ -238,6 +238,10 @@ def gen(tier: str, seed: int) -> list[Case]:
     canon = [a, b, c3, mid2, mid3, top, left, right, chain1, chain2, chain3,
              H("CanTwo", "hier_a0", [mid2], ["own_m"]), H("CanThree", "hier_b0", [mid3]), H("CanDiamond", "hier_a0", [left, right]),
              H("CanChain", "hier_b0", [chain3], ["epsilon"]), H("CanDirectTwo", "hier_a0", [b, a])]
+    # public and private bases in modules whose names extend the name of the subclass's module (and the other way round)
+    pb, prb = H("CanShape", "hier_a0_base", methods=["area"]), H("_CanNamed", "hier_a0_base", methods=["label"])
+    pb2 = H("CanSolid", "hier_a", methods=["volume"])
+    canon += [pb, prb, pb2, H("CanCircle", "hier_a0", [prb, pb], ["radius"]), H("CanCube", "hier_a0_base", [pb2]), H("CanBall", "hier_a0", [pb2, pb])]
     canon_truth = cpython_truth(canon)
     for nc in (False, True):
         cases.append(Case(cid=f"c17-canonical-{int(nc)}", files=render_modules(canon), opts=["-nc"] if nc else [], meta={"truth": canon_truth, "kinds": {k.name: dict(k.methods) for k in canon}, "classes": {k.name: k for k in canon}}, reach=REACH))
@@ -300,6 +304,13 @@ def make_judge(chk: Check):
                 viols.append(Viol("private-class-in-sub-list", shape, {"class": cname, "sub": got_sub}))
             if got_sub != t["public_bases"]:
                 viols.append(Viol("public-superclasses", shape, {"class": cname, "sub": got_sub, "expected": t["public_bases"]}))
+            # ... "and imported when defined elsewhere": every listed superclass of another module is imported by this file
+            imported = {(a or n) for _f, n, a in ss.files[rel].imports}
+            for b in hc.bases:
+                if not b.private and b.module != hc.module and b.src_name in got_sub:
+                    if b.src_name not in imported:
+                        viols.append(Viol("public-superclass-not-imported", shape, {"class": cname, "superclass": b.src_name, "defined_in": b.module, "imports": sorted(imported)}))
+                    chk.case_ok(f"superclass-import:{shape}", ident=(case.cid, cname, b.src_name))
             # members
             members = {}
             for mem in d.members:
